@@ -49,7 +49,7 @@ def run(ck):
     tp = os.path.join(ck.dir, "g.ndjson")
     deaths = vlib.run_executions(exe, lambda st: ["c17", "replay", sp, st], len(scripts), tp)
     vlib.conformance(ck, "G:edge-cover-replay", "TraceVisit", "trace.cfg", tp, deaths, diag_of, min_events=len(scripts))
-    n = 20000 if thorough else 3000
+    n = 60000 if thorough else 3000
     tp = os.path.join(ck.dir, "v.ndjson")
     deaths = vlib.run_executions(exe, lambda st: ["c17", "drive", st, n, 300], n, tp)
     vlib.conformance(ck, "V:random-trees-and-schedules", "TraceVisit", "trace.cfg", tp, deaths, diag_of, min_events=n)
